@@ -30,7 +30,7 @@ RULE = ("all APIs x channelisations {(-4,1500),(-0.1,1500.1),(-1/3,1234.5678),(+
 CHANNELISATIONS = [(-4.0, 1500.0), (-0.1, 1500.1), (-1.0 / 3.0, 1234.5678), (0.1, 1400.05), (-0.390625, 1510.3), (2 * np.pi / 100, 800.7)]
 APIS = ("read_block", "read_block_fch1", "read_dedisp_block", "collapse", "bandpass", "read_chan", "dedisperse", "invert_freq", "downsample",
         "extract_samps", "extract_chans", "extract_bands", "subband", "apply_channel_mask", "remove_zerodm",
-        "block_downsample", "block_dedisperse", "block_get_tim", "block_to_file", "ts_downsample", "ts_pad", "ts_to_tim")
+        "block_downsample", "block_dedisperse", "block_get_tim", "block_to_file", "ts_downsample", "ts_pad", "ts_to_tim", "plain_copy")
 TSAMP = 6.4e-5
 TSTART = 58123.456789012345
 
@@ -180,7 +180,28 @@ def run_case(case, ctx):
     allch = [[c] for c in range(nch)]
     nontriv = start > 0
     try:
-        if api == "read_block":
+        if api == "plain_copy":
+            # an 8-bit observation: first a 32-bit product of it (collapse().to_tim()), then a plain copy through header.prep_outfile(name)
+            # with no further arguments.  The copy's header must state the depth its samples are written with.
+            X8 = (np.arange(nsamps * nch).reshape(nsamps, nch) % 251).astype(np.uint8)
+            p8 = os.path.join(d, f"i8_{case['pseed']}.fil")
+            sigfile.write_fil(p8, X8, 8, tsamp=TSAMP, tstart=TSTART, fch1=fch1, foff=foff)
+            f8 = FilReader(p8)
+            f8.collapse(quiet=True, description="v").to_tim(os.path.join(d, f"t8_{case['pseed']}.tim"))
+            fw = f8.header.prep_outfile(out)
+            try:
+                fw.cwrite(X8.ravel())
+            finally:
+                fw.close()
+            dd, hl, raw = sigfile.parse_file(out)
+            ctx.count("shape_checks")
+            if dd["nbits"] != 8 or dd["nchans"] != nch or len(raw) != nsamps * nch:
+                ctx.violation("nbits[plain-copy-after-other-products]", f"copy written through header.prep_outfile(name): header says nbits={dd['nbits']} nchans={dd['nchans']}, {len(raw)} data bytes hold {nsamps}x{nch} 8-bit samples", case)
+                return
+            o = FilReader(out)
+            ck.shape(o.header, nsamps, nch)
+            nontriv = True
+        elif api == "read_block":
             b = fil.read_block(start, nsamps)
             t, c = _decode(b.data)
             ck.shape(b.header, b.data.shape[1], b.data.shape[0])
@@ -379,10 +400,26 @@ def run_case(case, ctx):
                 ck.tstart(ts.header, start, reg)
                 nontriv = True
             elif api == "block_to_file":
+                # the same block in the memory layouts blocks come in: read_block's transposed view, a C-contiguous array (user arrays,
+                # pad_samples, read_dedisp_block, valid-samples dedispersion), a Fortran-ordered copy
+                from sigpyproc.block import FilterbankBlock
+
+                lay = case["pseed"] % 4
+                if lay == 1:
+                    b = FilterbankBlock(np.ascontiguousarray(b.data), b.header)
+                elif lay == 2:
+                    b = fil.read_dedisp_block(start, nsamps, 0.0)
+                elif lay == 3:
+                    b = FilterbankBlock(np.asfortranarray(np.array(b.data, copy=True)), b.header)
+                ctx.count(f"block_to_file:layout{lay}:{'C' if b.data.flags['C_CONTIGUOUS'] else 'F' if b.data.flags['F_CONTIGUOUS'] else 'strided'}")
+                held = np.array(b.data, copy=True)
                 b.to_file(out)
                 o = FilReader(out)
                 ck.shape(o.header, nsamps, nch)
                 bb = o.read_block(0, o.header.nsamples)
+                if bb.data.shape != held.shape or not np.array_equal(np.asarray(bb.data), held):
+                    ctx.violation(f"label[block_to_file]:channel-rows-scrambled", f"the file written from a {'C' if b.data.flags['C_CONTIGUOUS'] else 'non-C'}-contiguous block does not hold block[c, t] at channel c, sample t (header labels then describe other data)", case)
+                    return
                 t, c = _decode(bb.data)
                 ck.tstart(o.header, int(t[0, 0]), reg)
                 ck.labels(o.header, [[int(c[j, 0])] for j in range(nch)], fch1, foff, spacing_factor=1)
